@@ -282,6 +282,10 @@ class Check:
         with open(tmp, "w") as f:
             json.dump(ev, f, indent=1, default=str)
         os.replace(tmp, os.path.join(EVIDENCE, f"{self.prop}.json"))
+        # the latest evidence of each tier is kept as well (evidence/<id>.json is whatever ran last)
+        tdir = os.path.join(EVIDENCE, "by_tier", self.tier)
+        os.makedirs(tdir, exist_ok=True)
+        shutil.copy(os.path.join(EVIDENCE, f"{self.prop}.json"), os.path.join(tdir, f"{self.prop}.json"))
         for sig, what in self.known:
             print(f"KNOWN-FINDING: property={self.prop} {what} [{sig}]")
         if self.violations:
